@@ -40,6 +40,15 @@ def program(rng, with_assign):
         stmts.append("ta := | id<u64> a<f64> |" + "".join(" %d %d |" % (k, 10 * k) for k in la))
         stmts.append("tb := | id<u64> b<f64> |" + "".join(" %d %d |" % (k, k + 100) for k in lb))
         tables = ["ta", "tb"]
+    if rng.random() < 0.15:
+        # two enums that share a variant name, and values / patterns of that variant (the enum table is a hash map:
+        # which enum the variant resolves to must not depend on the hash seed)
+        stmts.append("<color> := :red<u64> | :green")
+        stmts.append("<light> := :red<u64> | :amber | :green")
+        stmts.append("e1 := :red(%du64)" % rng.randint(1, 9))
+        stmts.append("e2 := e1? | :red(k) => k | * => 0u64.")
+        if rng.random() < 0.5:
+            stmts.append("e3 := :green")
     for i in range(n):
         r = rng.random()
         name = "v%d" % i
